@@ -1092,3 +1092,31 @@ Definition stream_pkg (h : heap) (s : stream) : nat :=
 Definition plain (h : heap) (s : stream) : Prop :=
   Forall (fun p => p = 2 \/ p = 3 \/ p = 4) (stream_phases h s) /\
   length (data_rows h s) = length (stream_phases h s).
+
+(* ================================================================= the _data_cache layer *)
+Lemma lookup_unbind r m : lookup r (unbind r m) = None.
+Proof.
+  induction m as [|[k c] m IH]; simpl; auto. destruct (Nat.eqb k r) eqn:E; simpl; auto. rewrite E. exact IH.
+Qed.
+Lemma view_reset st r : view_of (cache_reset st r) r = None.
+Proof. unfold view_of, cache_reset. simpl. rewrite lookup_unbind. reflexivity. Qed.
+Lemma unlink_imol h s h' a e : unlink h s = (h', a, e) -> imol a = imol s.
+Proof.
+  unfold unlink. destruct (nth_error h (imol s)) as [[| | | |k pb d|k phs d]|]; try (intros H; inversion H; reflexivity).
+  - destruct (tc_copy _ _) as [[h3 t]|]; intros H; inversion H; reflexivity.
+  - destruct (arr_copy h d) as [h1 d']. destruct (tc_copy _ _) as [[h3 t]|]; intros H; inversion H; reflexivity.
+Qed.
+
+(* after unlink the indexer of the stream holds a new, empty view dict: the next imass is built over its own rows *)
+Lemma unlink_view pk mw st i st' s : nth_error (ss st) i = Some s -> step pk mw st (OUnlink i) = (st', None) ->
+  view_of st' (imol s) = None /\ (exists a, nth_error (ss st') i = Some a /\ imol a = imol s) /\
+  snd (by_mass st' s) = data_rows (hp st') s.
+Proof.
+  intros H E. simpl in E. unfold unlink_step in E. rewrite H in E. unfold on1 in E. rewrite H in E.
+  destruct (unlink (hp st) s) as [[h a] e] eqn:U. inversion E; subst; clear E.
+  assert (V : view_of (cache_reset {| hp := h; ss := upd (ss st) i a; cmap := cmap st; caches := caches st |} (imol s)) (imol s) = None)
+    by apply view_reset.
+  split; [exact V|]. split.
+  - exists a. split; [|eapply unlink_imol; eauto]. simpl. apply nth_error_upd_same. eapply nth_error_some_lt; eauto.
+  - unfold by_mass. rewrite V. simpl. rewrite lookup_unbind. reflexivity.
+Qed.
